@@ -59,11 +59,13 @@ class Gen:
         """A qid that is distinct from every other qid generated with a different index `i`."""
         if dim is None or dim == 2:
             # (CleanQubit / BorrowableQubit are not registered with the JSON resolvers: outside the property)
-            kinds = ["lq", "nq", "gq", "p3d", "p2d"]
-            w = [8, 8, 5, 3, 2]
+            kinds = ["lq", "nq", "gq", "p3d", "p2d", "coupler"]
+            w = [8, 8, 5, 3, 2, 2]
             if not allow_exotic:
-                w = [8, 8, 5, 0, 0]
+                w = [8, 8, 5, 0, 0, 0]
             k = kinds[self.t.weighted(w, "qid.kind")]
+            if k == "coupler":
+                return self.coupler(i)
             if k == "lq":
                 return ["lq", i]
             if k == "nq":
@@ -90,19 +92,114 @@ class Gen:
         return ["asqid", ["p3d", i, 0, 0], dim]
 
     def bare_qid(self):
-        i = self.t.pick((0, 1, 2, 10, 3), "qid.index")
+        i = self.t.pick((0, 1, 2, 10, 3, -1), "qid.index")
+        if i < 0:
+            self.flags.add("negative-coordinate")
         dim = self.t.pick((2, 2, 3, 4), "qid.dim")
         return self.qid(i, dim)
 
+    @staticmethod
+    def with_other_dimension(q: list, d: int) -> Optional[list]:
+        """A qid of the same class family at the SAME place as recipe `q` but with dimension d (so the two tie on
+        every coordinate / name and differ in dimension only); None where that is not expressible."""
+        h = q[0]
+        if h == "lq":
+            return ["lqd", q[1], d]
+        if h == "lqd":
+            return ["lqd", q[1], d] if d != 2 else ["lq", q[1]]
+        if h == "gq":
+            return ["gqd", q[1], q[2], d]
+        if h == "gqd":
+            return ["gqd", q[1], q[2], d] if d != 2 else ["gq", q[1], q[2]]
+        if h == "nq":
+            return ["nqd", q[1], d]
+        if h == "nqd":
+            return ["nqd", q[1], d] if d != 2 else ["nq", q[1]]
+        if h in ("p3d", "p2d"):
+            return ["asqid", q, d]
+        if h == "asqid":
+            return ["asqid", q[1], d] if d != 2 else q[1]
+        return None
+
+    def coupler(self, i: int = 0):
+        """cirq_google.Coupler over a pair of qids: neighbours, one site with two dimensions (either order),
+        mixed qid classes, negative coordinates.  (The constructor sorts its endpoints.)"""
+        t = self.t
+        self.flags.add("cached-hash-qid")
+        self.flags.add("coupler")
+        mode = t.weighted([4, 4, 3, 1], "coupler.mode")
+        col = t.pick((0, 1, -1, 4), "coupler.col")
+        if col < 0:
+            self.flags.add("negative-coordinate")
+        if mode == 0:       # neighbouring sites
+            a, b = ["gq", i, col], ["gq", i, col + 1]
+            if t.chance(1, 3, "coupler.line"):
+                a, b = ["lq", 2 * i - 1], ["lq", 2 * i]
+                if i == 0:
+                    self.flags.add("negative-coordinate")
+        elif mode == 1:     # one site, two dimensions
+            base = t.pick((["gqd", i, col, 2], ["lqd", i, 2], ["nqd", f"r{i}", 2], ["asqid", ["p3d", i, 0, 0], 3]),
+                          "coupler.base")
+            d = t.pick((3, 4), "coupler.dim")
+            other = self.with_other_dimension(base, d if base[0] != "asqid" else 4)
+            a, b = base, other
+            self.flags.add("coupler-tied")
+        elif mode == 2:     # mixed classes
+            a, b = t.pick(((["lq", i], ["gq", i, col]), (["gq", i, col], ["gqd", i, col, 3]),
+                           (["nq", f"r{i}"], ["lq", i]), (["lq", i], ["lqd", i, 3]),
+                           (["p2d", i, 1], ["gq", i, col])), "coupler.mixed")
+        else:               # named
+            a, b = ["nq", f"r{i}"], ["nq", f"s{i}"]
+        if t.draw(2, "coupler.order"):
+            a, b = b, a
+        return ["coupler", a, b]
+
     def qid_pool(self, n: int, qudits: bool) -> List[Tuple[list, int]]:
+        """n pairwise different qids.  Slot k normally sits at coordinate base+k; where qudits are allowed a slot
+        may instead sit at an EARLIER slot's place with another dimension (the two then tie on every
+        coordinate and differ in dimension only); base may be -1 (hash(-1) == -2 in CPython)."""
+        t = self.t
         out = []
-        family = self.t.draw(3, "pool.family")   # 0: one kind drawn per qid, 1/2: biased to plain kinds
+        family = t.draw(3, "pool.family")   # 0: one kind drawn per qid, 1/2: biased to plain kinds
+        base = t.pick((0, 0, -1, 0, -2), "pool.base")
+        if base < 0:
+            self.flags.add("negative-coordinate")
         for i in range(n):
             dim = 2
-            if qudits and self.t.chance(1, 3, "pool.qudit"):
-                dim = self.t.pick((3, 4), "pool.dim")
-            out.append((self.qid(i, dim, allow_exotic=(family == 0)), dim))
+            if qudits and t.chance(1, 3, "pool.qudit"):
+                dim = t.pick((3, 4), "pool.dim")
+            if qudits and out and t.chance(1, 4, "pool.tie"):
+                k = t.draw(len(out), "pool.tie.with")
+                taken = {d for (q, d) in out if q is out[k][0] or self._same_place(q, out[k][0])}
+                free = [d for d in (2, 3, 4) if d not in taken]
+                tied = self.with_other_dimension(out[k][0], t.pick(free, "pool.tie.dim")) if free else None
+                if tied is not None and all(tied != q for q, _ in out):
+                    self.flags.add("tied-qids")
+                    self.flags.add("qudit")
+                    out.append((tied, tied[-1] if tied[0] in ("lqd", "gqd", "nqd", "asqid") else 2))
+                    continue
+            out.append((self.qid(base + i, dim, allow_exotic=(family == 0)), dim))
         return out
+
+    @staticmethod
+    def _same_place(a: list, b: list) -> bool:
+        def place(q):
+            h = q[0]
+            if h in ("lq", "lqd"):
+                return ("line", q[1])
+            if h in ("gq", "gqd"):
+                return ("grid", q[1], q[2])
+            if h in ("nq", "nqd"):
+                return ("named", q[1])
+            if h == "asqid":
+                return ("wrapped", repr(q[1]))
+            return ("other", repr(q))
+        pa, pb = place(a), place(b)
+        if pa[0] == "wrapped" or pb[0] == "wrapped":
+            inner_a = repr(a[1]) if a[0] == "asqid" else repr(a)
+            inner_b = repr(b[1]) if b[0] == "asqid" else repr(b)
+            return inner_a == inner_b
+        return pa == pb
 
     # -- keys / small values -----------------------------------------------------------------------------
     def key_name(self):
@@ -576,7 +673,7 @@ class Gen:
     KINDS = ("qid", "op", "circuit", "frozen", "circuitop", "shared", "gate", "moment", "mkey", "pstring",
              "psum", "dps", "result", "sympy", "tableau", "cliffgate", "resolver", "sweep", "list", "dict",
              "duration", "phasor", "coupler", "condition", "vendor")
-    WEIGHTS = (6, 8, 10, 8, 10, 8, 6, 4, 3, 4, 2, 3, 3, 3, 3, 2, 2, 2, 4, 2, 1, 2, 1, 4, 4)
+    WEIGHTS = (6, 8, 10, 8, 10, 8, 6, 4, 3, 4, 2, 3, 3, 3, 3, 2, 2, 2, 4, 2, 1, 2, 4, 4, 4)
 
     def value(self, allow_container=True):
         """(kind, recipe)"""
@@ -644,8 +741,7 @@ class Gen:
         if kind == "vendor":
             return kind, self.vendor()
         if kind == "coupler":
-            self.flags.add("cached-hash-qid")
-            return kind, ["coupler", ["gq", 0, t.draw(3, "coupler.col")], ["gq", 1, t.draw(3, "coupler.col2")]]
+            return kind, self.coupler(t.pick((0, 1, 5), "coupler.index"))
         if kind == "list":
             items = [self.value(allow_container=False)[1] for _ in range(t.between(1, 3, "list.n"))]
             return kind, ["list", items]
